@@ -47,6 +47,8 @@ RULE_SNIPPETS = [
     "PUSH 3 PUSH 4 PUSH 5 ADDMOD", "PUSH 3 PUSH 4 PUSH 5 MULMOD",
     "DUP1 MLOAD SWAP1 MSTORE", "DUP2 DUP2 MSTORE MLOAD", "DUP1 SLOAD SWAP1 SSTORE", "DUP2 DUP2 SSTORE SLOAD",
     "DUP2 DUP2 MSTORE DUP2 DUP2 MSTORE", "DUP1 MLOAD DUP2 MLOAD",
+    "DUP1 MLOAD SWAP1 MSTORE8", "DUP1 MLOAD DUP2 MSTORE8", "DUP1 MLOAD PUSH 1 ADD SWAP1 MSTORE", "DUP1 SLOAD DUP2 SSTORE",
+    "DUP1 MLOAD DUP2 PUSH 1 ADD MSTORE", "DUP1 MLOAD DUP2 PUSH 20 ADD MSTORE8",
 ]
 
 
@@ -308,7 +310,7 @@ def mem_heavy_blocks(seed, n):
         h, b = 5, []
         for _ in range(r.randint(4, 12)):
             k = r.random()
-            a = "DUP%d" % r.randint(1, min(h, 8)) if r.random() < 0.6 else "PUSH %x" % r.choice([0, 0x20, 0x40, 0x60])
+            a = "DUP%d" % r.randint(1, min(h, 8)) if (h >= 1 and r.random() < 0.6) else "PUSH %x" % r.choice([0, 0x20, 0x40, 0x60])
             if k < 0.3:
                 b += [a, r.choice(["MLOAD", "MLOAD", "SLOAD"])]; h += 1
             elif k < 0.55 and h >= 2:
